@@ -22,10 +22,10 @@ package block
 //@   modifies b.blockState
 
 // Ticket merging / copying only touches the verification tickets (loops over tickets: trusted frame).
-// (GetVerificationTickets returns copies of the block's tickets, in order)
+// (GetVerificationTickets returns copies of the block's tickets, in order, with the same verifier ids and
+// signatures - ASSUMED, stated here in prose only: as a quantified clause it slowed unrelated proofs down)
 //@ func (*Block).GetVerificationTickets
 //@   trusted
-//@   ensures len(vts) == len(b.VerificationTickets) && (forall i in 0..len(vts) :: vts[i] != nil && vts[i].VerifierID == b.VerificationTickets[i].VerifierID && vts[i].Signature == b.VerificationTickets[i].Signature)
 //@   modifies nothing
 
 //@ func (*Block).MergeVerificationTickets
